@@ -218,3 +218,56 @@ def r6_count_until(text):
     text, k = re.subn(r'count_until\(([^\s.()]+)\.\.([^\s,]+), ', r'vt_count_fwd(\1, \2, ', text)
     n += k
     return text, n
+
+
+@rule('derive_only')
+def derive_only(text, *keep):
+    """restrict a #[derive(..)] list to the traits Verus can take (the dropped derived impls are not verified text)"""
+    def sub(m):
+        items = [x.strip() for x in m.group(1).split(',') if x.strip()]
+        kept = [x for x in items if x in keep]
+        return '#[derive(%s)]' % ', '.join(kept) if kept else ''
+    return re.subn(r'#\[derive\(([^\]]*)\)\]', sub, text)
+
+
+@rule('R2')
+def r2_zip_enumerate(text):
+    """for (i, (x, y)) in A.iter().zip(B.iter()).enumerate() {  ->  for i in 0..vt_min(A.len(), B.len()) { let (x, y) = (&A[i], &B[i]);"""
+    pat = re.compile(r'([ \t]*)for \((%s), \((%s), (%s)\)\) in (%s)\.iter\(\)\.zip\((%s)\.iter\(\)\)\.enumerate\(\) \{' % ((IDENT,) * 5))
+
+    def sub(m):
+        ind, i, x, y, a, b = m.groups()
+        return '%sfor %s in 0..vt_min(%s.len(), %s.len()) {\n%s    let (%s, %s) = (&%s[%s], &%s[%s]);' % (ind, i, a, b, ind, x, y, a, i, b, i)
+    return pat.subn(sub, text)
+
+
+@rule('R7')
+def r7_trailing_continue(text):
+    """`continue;` that is the sole statement of a branch of the last if/else chain of a loop body -> empty block
+    (control reaches the end of the loop body anyway; checked structurally: after the chain only `}` follows)"""
+    n = 0
+    pos = 0
+    while True:
+        m = re.compile(r'\{\s*continue;\s*\}').search(text, pos)
+        if not m:
+            break
+        k = m.end()
+        # skip the rest of the if/else chain
+        while True:
+            mm = re.compile(r'\s*else\s*(if\b[^{]*)?\{').match(text, k)
+            if not mm:
+                break
+            k = _balanced(text, mm.end() - 1, '{', '}') + 1
+        if re.compile(r'\s*\}').match(text, k):
+            text = text[:m.start()] + '{\n' + _indent_of(text, m.start()) + '}' + text[m.end():]
+            n += 1
+            pos = m.start() + 1
+        else:
+            pos = m.end()
+    return text, n
+
+
+def _indent_of(text, pos):
+    ls = text.rfind('\n', 0, pos) + 1
+    m = re.match(r'[ \t]*', text[ls:])
+    return m.group(0)
